@@ -50,6 +50,22 @@ CLAIMED = {
         technique="Coq proof (bit-mask lemmas + vm_compute sweep over the regenerated table lifted by "
                   "forallb_forall) + differential correspondence",
     ),
+    "C15": dict(
+        text="Machine-checked theorems (Coq) over bit-exact IEEE-754 binary64 (SpecFloat: pure Z arithmetic, "
+             "axiom-free): the truncated normal returns the first in-bounds Gaussian draw unchanged (re-draw, "
+             "never clamp); both Poisson samplers return exactly the first index whose computed partial sum is not "
+             "below the single uniform draw, and cannot exhaust their fuel when such an index is reachable; PIC "
+             "ratio 0 / 1 yield only methods / only PICs for EVERY uniform draw (x * 1.0 = x proved for every "
+             "canonical double); totality is machine-refuted (known finding).  Sizing law and samplers are tied to "
+             "CPython bit-for-bit by a scripted-random correspondence.",
+        design="4 C15",
+        note="Trusted: Coq kernel (vm_compute), no axioms; SpecFloat as the IEEE-754 specification; math.exp and "
+             "random.gauss are inputs; CPython's choices algorithm hand-modelled; the unbounded divergence theorem "
+             "carries an explicit hypothesis on lambda/x (bounded refutation is unconditional); C15_sizes over "
+             "whole images rests on the generator correspondence.",
+        technique="Coq proof (induction on fuel over a SpecFloat model; symbolic evaluation of SFmul by 1.0) + "
+                  "bit-exact differential correspondence under a scripted random source",
+    ),
     "C17": dict(
         text="Machine-checked theorems (Coq) on the parser model: the log scan depends only on matched events "
              "(arbitrary noise lines irrelevant); for EVERY event sequence pre++[start]++mid++[ret]++post the "
